@@ -202,8 +202,15 @@ class Runner:
             if slot == "bearerAuth":
                 # the offered string as the CLIENT's credential (Authorization: Bearer) at the revocation endpoint; the token to revoke is unknown
                 ep = self.s.get_endpoint("token_revocation")
-                pr = ep.parse_request({"token": "no-such-token"}, http_info={"headers": {"authorization": "Bearer " + s}})
-                return "error" not in pr and bool(pr.get("client_id")) and bool(pr.get("authenticated"))
+                for body in ({"token": "no-such-token"}, {"token": "no-such-token", "client_id": "client_1"}, {"token": "no-such-token", "client_id": "client_2"}):
+                    try:
+                        pr = ep.parse_request(dict(body), http_info={"headers": {"authorization": "Bearer " + s}})
+                    except Exception:
+                        continue
+                    # honoured: the request goes on in some client's name (authenticated, or simply under the client_id the body claims)
+                    if "error" not in pr and bool(pr.get("client_id")):
+                        return True
+                return False
             if slot == "revoke":
                 ep = self.s.get_endpoint("token_revocation")
                 before = self.projection()
